@@ -56,6 +56,21 @@ func commentKind(s string) string {
 	return "block-comment"
 }
 
+// stripIndent removes the spaces and tabs that follow each newline.
+func stripIndent(s string) string {
+	var sb strings.Builder
+	afterNL := false
+	for i := 0; i < len(s); i++ {
+		ch := s[i]
+		if afterNL && (ch == ' ' || ch == '\t') {
+			continue
+		}
+		afterNL = ch == '\n'
+		sb.WriteByte(ch)
+	}
+	return sb.String()
+}
+
 // splitGap separates a gap into its comments and the whitespace segments
 // around them (len(ws) == len(comments)+1).
 func splitGap(items []gapItem) (comments []string, ws []string) {
@@ -136,6 +151,10 @@ func compareGap(left, right string, want, got []gapItem, fineClasses bool, add f
 			class = "trailing-" + r + "-moved-to-own-line"
 		case isComment(r) && na > 0 && nb == 0:
 			class = r + "-joined-to-previous-line"
+		case na == nb && na > 0 && !isComment(l) && !isComment(r) && stripIndent(a) == stripIndent(b):
+			class = "indentation-after-newline-changed"
+		case l == "string" && r == "string":
+			class = "whitespace-between-adjacent-strings-not-preserved"
 		case isComment(l) && isComment(r):
 			class = "whitespace-between-comments-not-preserved"
 		case isComment(r):
@@ -153,7 +172,7 @@ func compareGap(left, right string, want, got []gapItem, fineClasses bool, add f
 		case l == "`,`":
 			class = "whitespace-after-comma-not-preserved"
 		default:
-			class = "whitespace-not-preserved [" + l + " | " + r + "]"
+			class = "whitespace-not-preserved (other position)"
 		}
 		if fineClasses {
 			class += " (" + ca + " -> " + cb + ")"
@@ -174,6 +193,19 @@ func diffClasses(want, got string, tokenLevelOnly, fine bool) []diffClass {
 	if want == got {
 		return nil
 	}
+	return collapseSwallow(diffClassesRaw(want, got, tokenLevelOnly, fine, false), want, got)
+}
+
+// diffClassesIgnoringTrail is diffClasses without the comparison of the trivia
+// after the last significant token (the file's trailing trivia).
+func diffClassesIgnoringTrail(want, got string) []diffClass {
+	if want == got {
+		return nil
+	}
+	return collapseSwallow(diffClassesRaw(want, got, false, false, true), want, got)
+}
+
+func diffClassesRaw(want, got string, tokenLevelOnly, fine, ignoreTrail bool) []diffClass {
 	var out []diffClass
 	seen := map[string]bool{}
 	add := func(class string, detail map[string]any) {
@@ -216,6 +248,16 @@ func diffClasses(want, got string, tokenLevelOnly, fine bool) []diffClass {
 		}
 		det := map[string]any{"after": left, "source_token": a.Text, "printed_token": b.Text, "source_offset": a.Start, "printed_offset": b.Start}
 		switch {
+		case i+2 < len(A.Toks) && (A.Toks[i+1].Text == "," || A.Toks[i+1].Text == ";") && b.Text == a.Text+A.Toks[i+2].Text:
+			add("adjacent-tokens-fused (the separator between them was dropped)", det)
+			left = tokClass(A.Toks[i+2])
+			i += 3
+			j++
+		case i+1 < len(A.Toks) && b.Text == a.Text+A.Toks[i+1].Text:
+			add("adjacent-tokens-fused", det)
+			left = tokClass(A.Toks[i+1])
+			i += 2
+			j++
 		case i+1 < len(A.Toks) && A.Toks[i+1].Text == b.Text:
 			// a is missing from got. Was it swallowed by a comment?
 			sw := false
@@ -279,11 +321,11 @@ func diffClasses(want, got string, tokenLevelOnly, fine bool) []diffClass {
 	for ; j < len(B.Toks); j++ {
 		add("token-added: "+tokClass(B.Toks[j]), map[string]any{"printed_token": B.Toks[j].Text, "at": "end"})
 	}
-	if len(out) == 0 || (i == len(A.Toks) && j == len(B.Toks)) {
+	if !ignoreTrail && (len(out) == 0 || (i == len(A.Toks) && j == len(B.Toks))) {
 		compareGap(left, "EOF", A.Trail, B.Trail, fine, gapAdd)
 	}
 	if len(out) == 0 {
-		if tokenLevelOnly {
+		if tokenLevelOnly || ignoreTrail {
 			return nil
 		}
 		add("unclassified (texts differ but token views agree)", nil)
@@ -291,11 +333,45 @@ func diffClasses(want, got string, tokenLevelOnly, fine bool) []diffClass {
 	return out
 }
 
+// collapseSwallow: when a // comment of got swallowed live text, the other
+// token-level and comment-level classes of the same comparison are its
+// consequences (the alignment cannot tell "dropped" from "swallowed" for the
+// tokens in the middle of a swallowed run). They are folded into one class;
+// dropped `,` / `;` separators are kept because the printer also elides
+// those on its own.
+func collapseSwallow(ds []diffClass, want, got string) []diffClass {
+	sw := commentSwallows(want, got)
+	for _, d := range ds {
+		if strings.HasPrefix(d.Class, "token-swallowed-by-comment") {
+			sw = true
+		}
+	}
+	if !sw {
+		return ds
+	}
+	var out []diffClass
+	var folded []string
+	var first map[string]any
+	for _, d := range ds {
+		cat := classCategory(d.Class)
+		keep := cat == "whitespace" || cat == "eof" || d.Class == "token-dropped: `,`" || d.Class == "token-dropped: `;`" || d.Class == "comment-interior-whitespace-changed"
+		if keep {
+			out = append(out, d)
+			continue
+		}
+		folded = append(folded, d.Class)
+		if first == nil {
+			first = d.Detail
+		}
+	}
+	return append(out, diffClass{"token-swallowed-by-comment", map[string]any{"folded_classes": folded, "first_detail": first}})
+}
+
 // classCategory groups the classes (used as a suffix of the violation kind so
 // that no single kind carries dozens of signatures).
 func classCategory(class string) string {
 	switch {
-	case strings.HasPrefix(class, "token-"), strings.HasPrefix(class, "tokens-"), strings.HasPrefix(class, "top-level-statements"):
+	case strings.HasPrefix(class, "token-"), strings.HasPrefix(class, "tokens-"), strings.HasPrefix(class, "top-level-statements"), strings.HasPrefix(class, "adjacent-tokens"):
 		return "token"
 	case strings.HasPrefix(class, "comment-"), strings.Contains(class, "rewritten"):
 		return "comment"
